@@ -50,7 +50,8 @@ def detKwOf (j : Json) : Except String DetKwIn := do
       | .arr _ => do pure (some (← listOf natOfJson v))
       | _ => do pure (some [← natOfJson v])
     else pure none
-  pure { type := ty, bp := bp, axis0 := has j "axis", bogus := has j "bogus" }
+  let ow ← if has j "overwrite_data" then do pure (some (← boolOfJson (← field j "overwrite_data"))) else pure none
+  pure { type := ty, bp := bp, axis0 := has j "axis", bogus := has j "bogus", overwriteData := ow }
 
 def wnOf (j : Json) : Except String Wn := do
   let l ← listOf ratOfJson j
